@@ -25,6 +25,9 @@ import MdVerif.Model.Inline
 import MdVerif.Model.Post
 import MdVerif.Model.TreeProc
 import MdVerif.Lemmas.InlineFuel
+import MdVerif.Lemmas.InlineFuelVisit
+import MdVerif.Props.C02Block
+import MdVerif.Props.C10
 
 namespace MdVerif.Inline
 open Py
@@ -156,12 +159,10 @@ example : IdsLt 1 ("a ".toList ++ placeholder 0) := by
   simp only [List.mem_singleton] at hid
   subst hid; decide
 
-/-- **One visit of `run` succeeds** (`…_partial`: the hypotheses are the invariant that is proved for
-    `__handleInline` but not yet carried through `__processPlaceholders` and the revisits): if the stash is
-    `StashOK` and the child's text and tail only hold ids of existing entries, then the work `run` does for that
-    child — `__handleInline` and `__processPlaceholders` for its text, the same for its tail — never runs out of
-    fuel, and leaves a `StashOK` stash that extends the old one.  In particular the first visit of every element of
-    a block-parser tree (texts without `STX`, empty stash) succeeds. -/
+/-- **One visit of `run` succeeds**, stated with the shallow invariant `StashOK` (superseded by
+    `C02_visit_conserves` below, which carries the invariant through `__processPlaceholders` and every revisit): if
+    the stash is `StashOK` and the child's text and tail only hold ids of existing entries, then the work `run` does
+    for that child never runs out of fuel, and leaves a `StashOK` stash that extends the old one. -/
 theorem C02_visit_total_partial (cfg : Cfg) (child : Node) (v : Visit) (hs : StashOK v.st.stash)
     (ht : ∀ s, child.text = some s → IdsLt v.st.stash.length s)
     (htl : ∀ s, child.tail = some s → IdsLt v.st.stash.length s) :
@@ -181,30 +182,99 @@ theorem C02_visitLoop_fuel_mono (cfg : Cfg) (g g' : Nat) (todo : List (Node × O
     (hg : g ≤ g') (h : visitLoop cfg g todo v = some r) : visitLoop cfg g' todo v = some r :=
   visitLoop_mono cfg g g' todo v r hg h
 
-/-- **NOT PROVED** (a definition, not a theorem): `InlineProcessor.run` terminates on every tree within the
-    model's fuel `runFuel tree = 16·size + 64`.
+/-! ### termination of `InlineProcessor.run`
 
-    What is proved towards it (this file):
-    * every `__handleInline` call terminates within the model's fuels, for every text and state
-      (`C02_handleInline_total`), and keeps "ids increase" (`C02_handleInline_keeps_ids_increasing`,
-      `C02_stash_ids_increasing`);
-    * `__processPlaceholders` terminates on every stash whose ids increase (`C02_processPlaceholders_total`);
-    * hence one visit of a child succeeds when the stash is `StashOK` and the child's text/tail only hold ids of
-      existing entries (`C02_visit_total_partial`) — true for the first visit of every element of a block-parser tree;
-    * more fuel never changes a result (`C02_run_fuel_mono`).
+The potential (definitions in `Lemmas/InlineFuelPot.lean`): `phiC s` counts the trigger characters of `s` and `<`, `>`;
+`nuS st s = phiC s + Σ weight(id)` over the well-formed, canonically spelt placeholders of `s`, where the weight of a
+stash entry is the potential of what `__processPlaceholders` makes of it (a string entry: its `phiC`; an element: the
+sum over all its descendants of `1 + nuS text + nuS tail`); `potS st n` is that sum for a tree `n`.  `SOK stash`: ids
+increase at every depth of a stored element, stored elements have no tail, string entries are *inert* (cannot
+complete or start a placeholder when pasted back). -/
 
-    What is missing, and rests on the correspondence tests (`harness/corr/inline.py`: 20 000 random documents, 5 000
-    arbitrary trees and the adversarial families of `fuel_part` — texts of 100–2000 characters, emphasis nested 700
-    deep, link chains — all answered within the fuel, 0 disagreements with the implementation):
-    (1) that the texts `__processPlaceholders` puts back into the tree (pieces of the text between placeholders,
-        pasted together with the string entries of the stash) again only hold ids of existing entries, so that the
-        hypothesis of `C02_visit_total_partial` holds at every *re*visit; this needs a characterisation of the string
-        entries (`STX n ETX`, runs of `*`/`_`, raw-HTML placeholders: none can complete an inline placeholder) and
-        the seam argument of `C02_stash_ids_increasing` for those pastes;
-    (2) a bound on the number of turns of the two loops of `run` — the live loop over the children (elements made
-        from a tail are visited in the same loop) and the stack loop (an element is popped once for each pop of its
-        parent, plus once if it was made from a text): the natural argument is conservation of trigger characters
-        through `__processPlaceholders` (every new element uses up at least one), which is not formalised. -/
+example : potS {} { tag := .name "p".toList, text := some "a *b* c".toList } = 5 := by decide
+example : SOK ([] : List StashItem) := sok_nil
+
+/-- **`__handleInline` does not increase the potential** and keeps the invariants of the stash: every stashing match
+    is replaced by a placeholder whose entry weighs no more than the match (an element costs one unit, which its
+    delimiters pay; `code_escape` adds no weight; what the nested calls make of the texts of a new element weighs no
+    more than those texts), for all 16 patterns, any nesting, any fuel. -/
+theorem C02_handleInline_potential (cfg : Cfg) (f : Nat) (t : Str) (pi : Nat) (st : St) (d : Str) (st' : St)
+    (h : handleInline cfg f t pi st = some (d, st')) (hs : SOK st.stash) (hd : IdsLt st.stash.length t) :
+    SOK st'.stash ∧ IdsLt st'.stash.length d ∧ st.stash <+: st'.stash ∧ nuS st' d ≤ nuS st t :=
+  handleInline_spec cfg f t pi st d st' h hs hd
+
+/-- **`__processPlaceholders` does not increase the potential**: the text left with the parent (its receiving
+    string being empty before) and the elements returned weigh together no more than the text; the elements, at every
+    depth, and the text left only hold ids of existing entries; only the receiving string of the parent changes.
+    (This closes gap (1) of the earlier version of this file: the texts pasted back — pieces of the text and inert
+    string entries — cannot form a placeholder across a seam.) -/
+theorem C02_processPlaceholders_potential (st : St) (hs : SOK st.stash) (data : Str) (atomic : Bool) (parent : Node)
+    (isText : Bool) (res : List Node) (p' : Node) (h : ppTop st data atomic parent isText = some (res, p'))
+    (hids : IdsLt st.stash.length data) (hslot : slot isText parent = []) :
+    lpot (ownW (wts st.stash)) res + nuS st (slot isText p') ≤ nuS st data ∧
+      (∀ n ∈ res, Deep (IdsLt st.stash.length) n) ∧ IdsLt st.stash.length (slot isText p') ∧
+      p'.children = parent.children :=
+  let o := ppTop_acc st hs h hids hslot
+  ⟨o.1, o.2.1, o.2.2.1, o.2.2.2.2.2⟩
+
+/-- **One visit of a child** (its text and its tail) succeeds, keeps the invariants, and the rebuilt child together
+    with the elements made from its tail weighs no more than the child did — in every state `run` can reach: this is the
+    contract from which the termination of both loops follows (`VisitOK`, `Lemmas/InlineFuelRun.lean`). -/
+theorem C02_visit_conserves (cfg : Cfg) (child : Node) (v : Visit) (hs : SOK v.st.stash)
+    (hc : Deep (IdsLt v.st.stash.length) child) :
+    ∃ c tr v', visitChild cfg child v = some (c, tr, v') ∧ SOK v'.st.stash ∧ v.st.stash <+: v'.st.stash ∧
+      Deep (IdsLt v'.st.stash.length) c ∧ (∀ t ∈ tr, Deep (IdsLt v'.st.stash.length) t) ∧
+      potS v'.st c + lpot (ownW (wts v'.st.stash)) tr ≤ potS v.st child :=
+  (visitOK_inline cfg).visit child v hs hc
+
+/-- the potential of a tree without placeholders is at most its size (elements + characters) -/
+theorem C02_potential_le_size (tree : Node) : potS {} tree ≤ size tree := npot_le_size tree
+
+/-- **`InlineProcessor.run` terminates on every tree without `STX`** (every tree the block parser makes of a
+    normalised source: `C10_block_tree_noctl`, `C10_input_cannot_forge`) — and on every tree whose texts hold no
+    placeholder:
+    * the live loop over the children of a popped element needs at most `size tree + 1` turns, so the model's fuel
+      `runFuel tree = 16·size + 64` suffices for it;
+    * the stack loop ends within `bigFuel tree = (size+1)^(size+2) + 1` turns: each pop replaces one path of the
+      stack by at most `size` strictly longer paths, and no path is longer than `size + 1`.
+    The bound on the stack loop is astronomically generous; a linear one (as in the model) would need "an element is
+    popped at most a bounded number of times", which is not proved — see `C02_run_total_full`. -/
+theorem C02_run_total_bigfuel (cfg : Cfg) (tree : Node) (html : List Str) (h : NoCtl.TreeNoCtl tree) (g : Nat)
+    (hg : bigFuel tree ≤ g) : (runLoop cfg (runFuel tree) g tree [[]] { html := html }).isSome = true :=
+  run_total_big cfg tree html (deep_of_treeNoCtl h) (runFuel tree) (by unfold runFuel; omega) g hg
+
+example : bigFuel { tag := .name "p".toList, text := some "ab".toList } = 4 ^ 5 + 1 := by decide
+
+/-- **the model's `run` is that total function wherever it answers**: more outer fuel never changes its result
+    (`C02_run_fuel_mono`), so `run cfg tree html = some r` implies the same result with `bigFuel`, for which
+    termination is proved; and if the model's `run` answers `none` on a tree without `STX`, the only fuel that ran
+    out is the one of the stack loop. -/
+theorem C02_run_agrees_with_total (cfg : Cfg) (tree : Node) (html : List Str) (r : Node × St)
+    (h : Inline.run cfg tree html = some r) (g : Nat) (hg : runFuel tree ≤ g) :
+    runLoop cfg (runFuel tree) g tree [[]] { html := html } = some r :=
+  runLoop_mono cfg (Nat.le_refl _) _ _ _ _ _ _ hg h
+
+/-- every raw-HTML stash entry `run` stores is an entity reference -/
+theorem C02_run_html_entries (cfg : Cfg) (tree t : Node) (st : St) (h : Inline.run cfg tree = some (t, st)) :
+    ∀ e ∈ st.html, NoCtl.entityLike e = true := run_html cfg h
+
+/-- **The one remaining gap** (a definition, not a theorem): the model's `run`, whose *stack loop* has the linear
+    fuel `runFuel tree = 16·size + 64`, answers on every tree.
+
+    Proved (this file): every `__handleInline` and every `__processPlaceholders` call inside `run` terminates within
+    the model's fuels and conserves the potential (`C02_handleInline_total`, `C02_processPlaceholders_total`,
+    `C02_handleInline_potential`, `C02_processPlaceholders_potential`, `C02_visit_conserves`); the live loop over the
+    children terminates within the model's fuel, and the stack loop terminates within `bigFuel`
+    (`C02_run_total_bigfuel`); the model's `run` equals that total function whenever it answers
+    (`C02_run_agrees_with_total`).
+
+    Not proved: that the stack loop needs at most `16·size + 64` turns.  The honest bound from the argument above is
+    "an element is popped once per pop of its parent, plus once if it was made from a text", i.e. at most
+    `depth + 1` times, which gives a quadratic, not a linear, number of turns; a linear bound needs that revisits do
+    not cascade (true in all tests: `harness/corr/inline.py`, 20 000 documents, 5 000 arbitrary trees, the adversarial
+    families of `fuel_part` with nesting depth up to 700 — the model never answered `oof`).  If a *provable* fuel is
+    wanted in the model, `bigFuel` works for the stack loop (the live loop can keep `runFuel`); it is only ever
+    decremented, but it is a number of about `size·log₂ size` bits. -/
 def C02_run_total_full : Prop := ∀ (cfg : Cfg) (tree : Node), (Inline.run cfg tree).isSome = true
 
 end MdVerif.Inline
@@ -299,3 +369,53 @@ theorem C02_escape_entry_roundtrip (ch : Char) :
 example : unescapeText 0 (STX :: '9' :: '2' :: [ETX]) = some ['\\'] := by decide
 
 end MdVerif.TreeProc
+
+/-! ## The pipeline -/
+namespace MdVerif.Pipeline
+open Py Inline NoCtl
+
+/-- **`convert` can only run out of fuel in the stack loop of the inline tree processor.**  For a source without `<`:
+    the block parser always answers (`C02_parseDocument_total_any_tab`), the raw-HTML restore always answers (the
+    entries `run` stores are entity references: `C02_run_html_entries`, `C10_rawhtml_terminates`), so `convert = oof`
+    means that the model's `Inline.run` answered `none` on the block tree — which, by `C02_run_total_bigfuel`, is an
+    exhaustion of the linear fuel of its stack loop, not non-termination (`C02_run_total_full` is the missing
+    inequality). -/
+theorem C02_convert_oof_only_stack_loop (cfg : Cfg) (src : Str) (h : convert cfg src = .oof) :
+    ∃ root refs, Block.parseDocument cfg.tab (prepare cfg src) = some (root, refs) ∧ TreeNoCtl root ∧
+      Inline.run { esc := cfg.esc, refs := refs.reverse } root = none := by
+  unfold convert at h
+  split at h
+  · cases h
+  · split at h
+    · cases h
+    · have hp := Block.C02_parseDocument_total_any_tab cfg.tab (prepare cfg src)
+      cases hpd : Block.parseDocument cfg.tab (prepare cfg src) with
+      | none => rw [hpd] at hp; cases hp
+      | some rr =>
+        obtain ⟨root, refs⟩ := rr
+        have hno := (C10_block_tree_noctl cfg.tab (C10_input_cannot_forge cfg src).2 hpd).1
+        refine ⟨root, refs, rfl, hno, ?_⟩
+        cases hrun : Inline.run { esc := cfg.esc, refs := refs.reverse } root with
+        | none => rfl
+        | some ts =>
+          exfalso
+          obtain ⟨t, st⟩ := ts
+          unfold tree at h
+          simp only [hpd, hrun] at h
+          cases hu : TreeProc.unescapeTree (TreeProc.prettify t cfg.blockLevel) with
+          | none => simp [hu] at h
+          | some u =>
+            simp only [hu] at h
+            have hent := run_html _ hrun
+            unfold Post.finish at h
+            split at h
+            · next hfin =>
+              split at hfin
+              · cases hfin
+              · next s0 _ =>
+                obtain ⟨out, hout⟩ := C10_rawhtml_terminates (bl := cfg.blockLevel) hent s0
+                simp [Post.post, hout] at hfin
+            · cases h
+            · cases h
+
+end MdVerif.Pipeline
